@@ -109,7 +109,8 @@ class Walk:
             for t in new_texts:
                 self.wrote[who].add(norm(t))
             self.r.ai_checkpoint(who, [p], tool=S.TOOL)
-        if who == "human" and kind in ("replace", "modify"):
+        if who == "human" and kind != "reindent":
+            # inserting next to / deleting / replacing AI lines can all amount to rewriting them in place
             self.human_inplace.add(p)
         self.log(op="edit", who=who, path=p, kind=kind, content=lines)
 
@@ -326,7 +327,7 @@ def replay_steps(steps):
                 elif w.initial_unconsumed(p):
                     w.tainted.add(p)
                 r.write(p, "".join(l + "\n" for l in st["content"]))
-                if who == "human" and st.get("kind") in ("replace", "modify"):
+                if who == "human" and st.get("kind") != "reindent":
                     w.human_inplace.add(p)
                 if who != "human":
                     for l in st["content"]:
@@ -363,6 +364,15 @@ def shrink(steps, sig, budget=60):
 
 
 def run_walk(seed, length):
+    out = _run_walk(seed, length)
+    for _ in range(2):
+        if not any(sig == "runner-exception" for sig, _d in out[0]):
+            break
+        out = _run_walk(seed, length)
+    return out
+
+
+def _run_walk(seed, length):
     try:
         with e2e.Env() as env:
             w = Walk(env, seed)
